@@ -306,6 +306,7 @@ done:
 			}})
 
 		case pts := <-rc.newPoints:
+			verifEvent("rule.configPoints", rc.config.ID, pts.ID, pts.Points)
 			err := data.MergePoints(pts.ID, pts.Points, &rc.config)
 			if err != nil {
 				log.Println("error merging rule points:", err)
